@@ -52,6 +52,7 @@ def step_case(cls):
     def run(api):
         prog = C11.program()
         I = K.make_interp(prog, api.ctx, "C08", loop_inv=K.LOOP_INV)
+        I.flag_statics = True
         o = K.valid_object(I, cls)
         K.assume_content_invariants(I, o)
         for nm, kd in UNSET_AFTER_INIT.get(cls, {}).items():
@@ -108,6 +109,11 @@ def api_case(fname, cls):
 
         def st_iterate(I_, this, args, fr, node):
             api.check(P + "/Iterate-called-on-the-live-object", this is o)
+            if fname == "engineexport_iterate_n":
+                i = I_.local_by_name(fr, "i")
+                # a counted loop (i = 0; i < n; i++) whose body makes one call: at most n calls, none for n <= 0
+                api.check(P + "/loop-is-counted-from-0-with-step-1", I_.loops_seen.get((fname, 1)) == "counted")
+                c.oblige(P + "/call-number-below-n_iterations", z3.And(i >= 0, i < args_n[0]))
             r = I_.fresh("iterate_result", "bool")
             results.append(r)
             return r
@@ -119,8 +125,10 @@ def api_case(fname, cls):
         inv0[(fname, 1)] = inv
         fn = prog.functions[fname][0]
         args = []
+        args_n = [None]
         if fname == "engineexport_iterate_n":
             args = [K._int(I, "n_iterations")]
+            args_n[0] = args[0]
         elif fname == "engineexport_run":
             args = [K._int(I, "breathe_dt")]
         ret = I.call(fn, None, args, fn, Frame("top"))
